@@ -782,3 +782,111 @@ class GaussianEagerSubsOrder(Contract):
         rank = {k: i for i, grp in enumerate(order) for k in grp}
         rem_sorted = all(rank[a[1].kind] <= rank[b[1].kind] for a, b in zip(remaining, list(remaining)[1:]))
         return [("right_class_applied_first", m == exp_m and list(applied) == exp_applied and result == ("delegated", exp_m)), ("no_pair_lost_or_duplicated", no_loss), ("remaining_pairs_grouped_indices_before_real_values", rem_sorted)]
+
+
+# ==================================================================================================
+# C12: joint.eager_cat_homogeneous -- concatenating Gaussians along a batch input
+# ==================================================================================================
+@register
+class GaussianCatLayout(Contract):
+    """joint.eager_cat_homogeneous(name, part_name, *Gaussians): every part is aligned to ONE joint layout -- part_name's dim
+    first, then the other integer inputs (first-appearance order), then the real inputs -- and expanded to it; the parts are
+    concatenated along dim 0 in the given order; the result is Gaussian(cat of white_vecs, cat of prec_sqrts, inputs) whose
+    inputs list `name` (size = sum of the parts' sizes) FIRST, exactly where the data has the concatenated dim, then the other
+    inputs in the layout order -- also when name differs from part_name (the repaired defect appended it last).
+    structure bound: 2..3 parts of equal rank, with / without another batch input, inputs in two orders, name == or !=
+    part_name.  (Mixture parts and rank padding go through the same layout; they are covered by the bounded tier.)"""
+
+    props = ("C12",)
+    file = "funsor/joint.py"
+    qualname = "eager_cat_homogeneous"
+    total = True
+    mutants = (
+        ("new name appended after the other inputs (the pinned-tree defect)", "    inputs = OrderedDict(\n        (name, domain) if k == part_name else (k, v) for k, v in inputs.items()\n    )", "    inputs = OrderedDict((k, v) for k, v in inputs.items() if k != part_name)\n    inputs[name] = domain"),
+        ("parts concatenated in reverse", "    white_vec = ops.cat(white_vecs, dim)", "    white_vec = ops.cat(white_vecs[::-1], dim)"),
+    )
+
+    def structures(self, tier):
+        for nparts in (2, 3):
+            for pat in (("t", "x"), ("t", "j", "x"), ("x", "j", "t"), ("j", "x", "t", "y")):
+                for nm in ("t", "s"):
+                    yield "parts=%d,inputs=%s,name=%s" % (nparts, ",".join(pat), nm), (nparts, pat, nm)
+
+    def build(self, p, st):
+        nparts, pat, nm = st
+
+        class GaussT:
+            output = "Real"
+
+            def __init__(self, k, tsize):
+                self.k = k
+                self.inputs = OrderedDict()
+                for c in pat:
+                    if c == "t":
+                        self.inputs[c] = Dom(tsize, 1)
+                        self.inputs[c].size = tsize
+                    elif c == "j":
+                        d = Dom(4, 1)
+                        d.size = 4
+                        self.inputs[c] = d
+                    else:
+                        self.inputs[c] = Dom("real", 2)
+
+        parts = tuple(GaussT(k, 2 + k) for k in range(nparts))
+        made = []
+
+        class GaussCls:
+            @staticmethod
+            def __sym_instancecheck__(x):
+                return isinstance(x, GaussT)
+
+            def __call__(self, w, S, ins):
+                made.append((w, S, ins))
+                return ("Gaussian", len(made) - 1)
+
+        def align_gaussian(inputs, g):
+            layout = tuple((k, getattr(d, "size", None)) for k, d in inputs.items())
+            return RecArr(("w", g.k, layout), (1, 7)), RecArr(("S", g.k, layout), (1, 4, 7))
+
+        class Ops:
+            @staticmethod
+            def expand(a, shape):
+                return RecArr(("expand", a.tag, tuple(shape)), tuple(s if s != -1 else a.shape[i - len(shape)] for i, s in enumerate(shape)))
+
+            @staticmethod
+            def cat(parts_, dim):
+                parts_ = list(parts_)
+                sh = list(parts_[0].shape)
+                sh[dim] = sum(q.shape[dim] for q in parts_)
+                return RecArr(("cat", tuple(q.tag for q in parts_), dim), sh)
+
+        class BintNS2:
+            def __getitem__(self, n):
+                d = Dom(n, 1)
+                d.size = n
+                return d
+
+        ns = dict(OrderedDict=OrderedDict, Gaussian=GaussCls(), GaussianMixture=type("GM", (), {}), ops=Ops, align_gaussian=align_gaussian, Bint=BintNS2(), isinstance=core.sisinstance, issubclass=issubclass, type=type, tuple=tuple, max=max, enumerate=enumerate, zip=zip, any=core.sany, NotImplementedError=NotImplementedError)
+        return Ctx(args=(nm, "t") + parts, namespace=ns, parts=parts, made=made, st=st)
+
+    def ensures(self, ctx, result):
+        nparts, pat, nm = ctx.st
+        if result != ("Gaussian", 0) or len(ctx.made) != 1:
+            return [("one_gaussian", False)]
+        w, S, ins = ctx.made[0]
+        ints = ["t"] + [c for c in pat if c == "j"]
+        reals = [c for c in pat if c not in ("t", "j")]
+        exp_names = [nm] + ints[1:] + reals
+        total = sum(2 + k for k in range(nparts))
+        names_ok = list(ins) == exp_names and ins[nm].size == total
+        cl = [("new_input_first_then_the_joint_layout", names_ok)]
+        ok_w = w.tag[0] == "cat" and w.tag[2] == 0 and len(w.tag[1]) == nparts
+        ok_S = S.tag[0] == "cat" and S.tag[2] == 0 and len(S.tag[1]) == nparts
+        order = ok_w and ok_S
+        if order:
+            for k in range(nparts):
+                layout = tuple([("t", 2 + k)] + [(c, 4) for c in ints[1:]] + [(c, None) for c in reals])
+                shape = (2 + k,) + (4,) * (len(ints) - 1)
+                order = order and w.tag[1][k] == ("expand", ("w", k, layout), shape + (-1,)) and S.tag[1][k] == ("expand", ("S", k, layout), shape + (-1, -1))
+        cl.append(("parts_aligned_to_one_layout_and_concatenated_in_order_along_dim_0", bool(order)))
+        return cl
